@@ -266,7 +266,7 @@ def initEnv (p : Proc) (bounds : List (Sym × Bound))
 def paramKind : ArgTy → PKind
   | .ctrl _ => .int
   | .scalar => .ptr
-  | .tensor _ true => .win
+  | .tensor sh true => .win sh.length
   | .tensor _ false => .ptr
 
 def paramsOf (args : List FnArg) : List (Sym × PKind) := args.map (fun a => (a.name, paramKind a.ty))
@@ -285,13 +285,13 @@ def compArg (Γ : CEnv) (fa : FnArg) : Expr → M (CArg × Bool)
           match fa.ty with
           | .tensor _ false => pure (.ptr y false, true)
           | _ => throw "raise:call-argument-kind"
-      | some (.window _), .win => pure (.winVar y, true)
+      | some (.window _), .win _ => pure (.winVar y, true)
       | none, _ => throw "raise:KeyError"
       | _, _ => throw "raise:call-argument-kind"
   | .read _ (_ :: _) => throw "raise:AssertionError:comp_fnarg"
   | .win y acc =>
       match paramKind fa.ty with
-      | .win => do
+      | .win _ => do
           let (isW, los, strs, ivs, k) ← windowFields Γ y acc
           pure (.win y isW los strs ivs, k)
       | _ => throw "raise:call-argument-kind"
